@@ -1,6 +1,37 @@
-(** C10 - placeholder until the recovery theorems land. *)
-From Coq Require Import List NArith.
-From BP Require Import Base.Field Model.VerifyTop.
-Theorem C10_verify_only_no_mask : forall (K : Fld) ofN (mb : member K), mask_of K ofN VerifyOnly mb = None.
-Proof. reflexivity. Qed.
-Print Assumptions C10_verify_only_no_mask.
+(** C10 — mask recovery is keyed by the seed and never changes the verdict. *)
+From Coq Require Import List Arith NArith Bool.
+From BP Require Import Base.Field Model.Verifier Model.VerifyTop Proofs.MaskP Proofs.VerifyTopP.
+Import ListNotations.
+
+(** Non-interference: the accept/reject verdict of a chunk and every scalar of its final check are the
+    same whether or not the statements carry seeds, in either verifying mode, for valid and invalid
+    proofs alike. *)
+Theorem C10_verdict_independent_of_seed_and_mode : forall (K : Fld) ofN m1 m2 ms ws z,
+  verifying m1 = true -> verifying m2 = true ->
+  is_ok (fst (verify_chunk K ofN m1 ms ws z)) = is_ok (fst (verify_chunk K ofN m2 (map (forget_seed K) ms) ws z))
+  /\ snd (verify_chunk K ofN m1 ms ws z) = snd (verify_chunk K ofN m2 (map (forget_seed K) ms) ws z).
+Proof. exact verdict_independent_of_seed_and_mode. Qed.
+Print Assumptions C10_verdict_independent_of_seed_and_mode.
+
+(** Recover-only returns, for everything recover-and-verify accepts, the same masks. *)
+Theorem C10_recover_only_same_masks : forall (K : Fld) ofN ms ws z masks,
+  fst (verify_chunk K ofN RecoverAndVerify ms ws z) = Ok masks -> fst (verify_chunk K ofN RecoverOnly ms ws z) = Ok masks.
+Proof. exact recover_only_same_masks. Qed.
+Print Assumptions C10_recover_only_same_masks.
+
+(** What a different seed returns: the true mask plus an explicit combination of the nonce differences
+    divided by e^2 z^2 y^(N+1); it is the true mask iff that combination vanishes (probability 1/l when
+    the nonces of different seeds are independent — TRUSTED, Blake2b as a PRF keyed by the whole seed,
+    with the key layout proved injective in C13). *)
+Theorem C10_wrong_seed_delta : forall (K : Fld), FldOk K ->
+  forall (nonce nc' : nlabel -> option nat -> nat -> K) y z e es N r k,
+  y <> f0 K -> z <> f0 K -> e <> f0 K ->
+  let esq := map (fun c => fmul K c c) es in
+  let esq_inv := map (fun c => fmul K c c) (map (finv K) es) in
+  let delta := fadd K (fadd K (fsub K (nc' NEta None k) (nonce NEta None k)) (fmul K (fsub K (nc' Nd None k) (nonce Nd None k)) e))
+                 (fmul K (fadd K (fsub K (nc' NAlpha None k) (nonce NAlpha None k))
+                                 (fsub K (round_sum K nc' k 0 esq esq_inv) (round_sum K nonce k 0 esq esq_inv))) (fmul K e e)) in
+  recover_one K nonce y z e es N k (honest_d1 K nc' y z e es N r k)
+  = fadd K r (fmul K delta (finv K (fmul K (fmul K e e) (fmul K (fmul K z z) (fmul K (fpow K y N) y))))).
+Proof. exact recover_one_wrong_seed. Qed.
+Print Assumptions C10_wrong_seed_delta.
